@@ -79,7 +79,6 @@ RadNames  == {"id", "root"}
 EmptyRefs == [x \in {} |-> "o1"]
 Put(f, k, v) == [x \in DOMAIN f \cup {k} |-> IF x = k THEN v ELSE f[x]]
 Del(f, k)    == [x \in DOMAIN f \ {k} |-> f[x]]
-Restrict(f, S) == [x \in DOMAIN f \cap S |-> f[x]]
 SeqOfNames(S) == SelectSeq(NameOrder, LAMBDA n : n \in S)
 
 \* What an honest owner lists at each version.  o1 <- o2, o1 <- o3 (o2, o3 diverge);
